@@ -32,12 +32,21 @@ def node_frame():
         for fn in [s for s in cnode.body if isinstance(s, (ast.FunctionDef, ast.AsyncFunctionDef)) and s.name not in ("__init__", "__post_init__", "__init_subclass__") and s.args.args and s.args.args[0].arg == "self"]:
             n += 1
             stores = []
+            # locals bound to (a part of) self are aliases: `segments = self.path; segments[i] = v`
+            aliases = {"self"}
+            for x in ast.walk(fn):
+                if isinstance(x, ast.Assign) and len(x.targets) == 1 and isinstance(x.targets[0], ast.Name) and isinstance(x.value, (ast.Attribute, ast.Subscript)):
+                    root = x.value
+                    while isinstance(root, (ast.Attribute, ast.Subscript)):
+                        root = root.value
+                    if isinstance(root, ast.Name) and root.id == "self":
+                        aliases.add(x.targets[0].id)
             for x in ast.walk(fn):
                 if isinstance(x, (ast.Attribute, ast.Subscript)) and isinstance(x.ctx, (ast.Store, ast.Del)):
                     root = x
                     while isinstance(root, (ast.Attribute, ast.Subscript)):
                         root = root.value
-                    if isinstance(root, ast.Name) and root.id == "self":
+                    if isinstance(root, ast.Name) and root.id in aliases:
                         stores.append(flow.dotted(x))
                 if isinstance(x, ast.Call) and isinstance(x.func, ast.Attribute) and x.func.attr in MUTATORS:
                     root = x.func.value
@@ -180,6 +189,21 @@ def module_state():
         obs.append(flow.ob(f"{m}:module-level-containers-are-not-written-by-functions", not writes, str(writes)))
     obs.append(flow.ob("modules-with-mutable-globals", n >= 1, f"{n} modules"))
     return obs
+
+
+# evaluating an expression never writes the parsed expression (symbolic execution of the real
+# evaluate/evaluate_async of every expression class, in every presence configuration)
+import ast as _ast  # noqa: E402
+
+from contracts.C19 import _children_complete, _expr_classes  # noqa: E402
+
+for _m, _cn, _init in _expr_classes():
+    _anns = [_ast.unparse(a.annotation) if a.annotation else "" for a in (_init.args.args[1:] + _init.args.kwonlyargs)] if _init is not None else []
+    if not any(("Expression" in x or "Filter" in x or x == "Segments") for x in _anns):
+        continue
+    for _sfx in ("", "_async"):
+        if load._last_def(load.get_module(_m).classes[_cn].body, "evaluate" + _sfx) is not None:
+            _children_complete(_m, _cn, _init, _sfx, prop="C17", what="frame")
 
 
 # a cached template is shared between requests: what it renders must not depend on the request
